@@ -91,7 +91,12 @@ def gen_cases(tier, seed):
     def add(fl, cmp, keys, probes=None, steps=False):
         keys = [str(k) for k in keys]
         if probes is None:
-            if cmp in ("int", "diff") and keys:
+            if cmp == "wide" and keys:
+                ks = set(int(k) for k in keys)
+                cand = [k + d for k in list(ks)[:14] for d in (1, -1, 2 ** 31, 2 ** 32, -2 ** 32) if 0 <= k + d < 2 ** 62]
+                probes = [v for v in dict.fromkeys(cand) if v not in ks][:40]
+                probes += rnd.sample(sorted(ks), min(3, len(ks)))
+            elif cmp in ("int", "diff") and keys:
                 ks = set(int(k) for k in keys)
                 probes = [v for v in range(min(ks) - 1, max(ks) + 2) if v not in ks][:40]
                 probes += rnd.sample(sorted(ks), min(3, len(ks)))
@@ -137,6 +142,14 @@ def gen_cases(tier, seed):
                 add(fl, cmp, r)
                 r2 = [rnd.randrange(max(2, n // 8)) for _ in range(n)]     # heavy duplicates
                 add(fl, cmp, r2)
+    # a total order whose three-way results do not fit an int: keys on the 2^31 and 2^32 grids and 62-bit random keys
+    for n in ([8, 64, 500] if tier == "quick" else [8, 64, 500, 5000, 50000]):
+        for fl in ("own", "chain"):
+            grid = [((i * 7919) % n) << rnd.choice([31, 32, 33]) for i in range(n)]
+            add(fl, "wide", grid, steps=(n <= 8))
+            add(fl, "wide", [rnd.randrange(2 ** 62) for _ in range(n)])
+            mixed = [rnd.choice([rnd.randrange(64) << 32, (rnd.randrange(64) << 31) + rnd.randrange(3), rnd.randrange(2 ** 62)]) for _ in range(n)]
+            add(fl, "wide", mixed)
     nrand = 300 if tier == "quick" else 5000
     for i in range(nrand):
         n = rnd.choice([3, 8, 15, 16, 17, 31, 40, 64])
@@ -161,6 +174,8 @@ def case_line(c, for_model=False, ranks=None):
         cmp2 = "int"
         keys = ["%d:%s" % (ranks[int(k)], k) for k in keys]
         probes = ["%d:%s" % (ranks[int(k)], k) for k in probes]
+    elif for_model and cmp == "wide":
+        cmp2 = "diff"                  # the model's difference comparator is over Z: no width
     else:
         cmp2 = cmp
     return " ".join([fl, cmp2] + (["steps"] if steps else []) + keys + (["?"] + probes if probes else []))
@@ -169,7 +184,7 @@ def case_line(c, for_model=False, ranks=None):
 def expected(c, ranks=None):
     """What the property itself demands of this case (independent of the model)."""
     fl, cmp, steps, keys, probes = c
-    if cmp in ("int", "diff"):
+    if cmp in ("int", "diff", "wide"):
         kf = int
     elif cmp == "addr":
         kf = lambda k: ranks[int(k)]
@@ -306,6 +321,30 @@ def check(res):
                                           {"correspondence": "RBModel vs util::rb_tree", "case": case_line(c)[:2000],
                                            "impl": o.get(f, "")[:600], "model": m.get(f, "")[:600]}, no_input=True)
                         break
+    # long patterned runs, validated by the driver itself in one pass (search order, colours, black counts, parent links, every key
+    # found, no other key found, size): trees deep enough (35+ levels) to pass any fixed walk bound a balanced tree "cannot" reach
+    bulk_n = 400000 if tier == "quick" else 3000000
+    bulk = ["bulk %s %s %d" % (fl, pat, n) for fl in ("own", "chain") for pat in ("asc", "desc", "organ", "zig") for n in (bulk_n,)] + \
+           ["bulk own asc 0", "bulk chain asc 1", "bulk own desc 2"]
+    bouts, bcr = run_cases(exe, bulk, env=SAN_ENV)
+    for idx, err in bcr[:2]:
+        res.violation("crash:bulk", "rb driver aborted (sanitizer report or crash) on a long insertion run, or when the tree was destroyed",
+                      {"case": bulk[idx], "stderr": err[:3000], "rerun": "echo '%s' | build/<hash>/asan/rb_driver" % bulk[idx]})
+    for b, o in zip(bulk, bouts):
+        if o is None:
+            continue
+        f = split_fields(o)
+        n, h = int(f.get("n", 0)), int(f.get("height", 0))
+        bad = None
+        if f.get("bulk") != "ok":
+            bad = f.get("why", "?").replace("_", " ")
+        elif 2 ** h > (n + 1) ** 2:
+            bad = "height %d exceeds 2*log2(%d+1)" % (h, n)
+        elif int(f.get("size", -1)) != n or int(f.get("nodes", -1)) != n:
+            bad = "size()=%s, %s nodes, %d distinct keys inserted" % (f.get("size"), f.get("nodes"), n)
+        if bad and not any(v["key"].startswith("oracle:bulk") for v in res.violations):
+            res.violation("oracle:bulk/%s" % b.split()[1], "red-black tree invariant violated on a long run: " + bad,
+                          {"case": b, "observed": o, "rerun": "echo '%s' | build/<hash>/asan/rb_driver" % b})
     if len(model_lines) != len(cases) and not res.violations:
         res.violation("diff:model-lines", "model driver produced %d lines for %d cases" % (len(model_lines), len(cases)),
                       {"stderr": err[-2000:]}, no_input=True)
